@@ -210,11 +210,32 @@ def field_sweep_cases(tier, shard, nshards):
                         k += 1
 
 
-def deep_frame(depth, pattern, leaf):
+def deep_frame(depth, pattern, leaf, key='k'):
     return {'kind': 'method', 'cls': 'Queue.Declare', 'ch': 1,
             'args': {'ticket': 0, 'queue': 'q', 'passive': False, 'durable': True,
                      'exclusive': False, 'auto_delete': False, 'nowait': False,
-                     'arguments': [['deep', wire.chain(depth, pattern, leaf)]]}}
+                     'arguments': [['deep', wire.chain(depth, pattern, leaf, key)]]}}
+
+
+def uniform_fault_cases(tier, shard, nshards):
+    """one rewrite applied to EVERY located field of one kind of a container chain (all
+    table lengths -> 1, all array lengths -> 0, all string lengths + 1 ...): faults that
+    only add up across nesting levels"""
+    kinds = ('len32:F', 'len32:A', 'len32:S', 'len8', 'tag')
+    modes = (('zero', 0), ('one', 0), ('small', 2), ('small', 5), ('inc', 0),
+             ('dec', 0), ('double', 0), ('rest', 0), ('ff', 0), ('neg-small', 1))
+    k = 0
+    for depth in (1, 2, 3, 4, 6, 8, 10, 12, 14, 16, 18, 20, 24, 32, 48, 64):
+        for pattern in ('A', 'F', 'AF', 'FA', 'AAF', 'FFA'):
+            for key in ('', 'k'):
+                for leaf in (['V'], ['S', b'xyz'], ['A', []]):
+                    frame_case = deep_frame(depth, pattern, leaf, key)
+                    for kind in kinds:
+                        for mode, arg in modes:
+                            if k % nshards == shard:
+                                yield {'frame': frame_case,
+                                       'faults': [['fields', kind, mode, arg, True]]}
+                            k += 1
 
 
 def deep_fault_cases(tier, shard, nshards):
